@@ -204,6 +204,27 @@ class Session:
                             ob.status, ob.backend, ob.model = 'refuted', step + '+hints', mdl
                         else:
                             ob.status, ob.backend, ob.detail = 'unknown', step, reason
+        # 4. robustness under machine load: a few obligations left undecided by a time-out get one more attempt with four times
+        #    the budget (a time-out is never a verdict; many undecided obligations mean a changed program, not a busy machine)
+        late = [ob for ob in rest if ob.status == 'unknown' and ob.kind != 'canary']
+        if 0 < len(late) <= 8:
+            jobs3 = []
+            for ob in late:
+                text = smt.to_smt2(ob.hyps + (ob.hints or []), ob.goal, self.extra_axioms)
+                to = 4 * (ob.timeout or self.timeout_ms)
+                jobs3.append((ob.id + '#A', text, to, ['z3', 'cvc5']))
+                jobs3.append((ob.id + '#B', text, to, ['nlsat']))
+            if verbose:
+                print('  [%s] %d undecided obligations retried with a 4x budget' % (self.prop, len(late)), flush=True)
+            raw = smt.pool().run(jobs3)
+            byid = {ob.id: ob for ob in late}
+            for k2, r in raw.items():
+                ob = byid[k2[:-2]]
+                st, mdl, secs, reason, step = r
+                if st == 'unsat':
+                    ob.status, ob.backend, ob.detail = 'proved', step + '+retry', ''
+                elif st == 'sat' and ob.status != 'proved' and not ob.hints:
+                    ob.status, ob.backend, ob.model = 'refuted', step + '+retry', mdl
         self._texts = texts
 
     # ---- verdict ----
@@ -313,8 +334,9 @@ class Session:
             cov.update(extra)
         ev = dict(property_id=self.prop, tier=self.tier, seed=self.seed, level=level, coverage=cov,
                   assumptions=self.assumptions, wall_s=round(wall, 2), violations=nviol)
-        os.makedirs(os.path.join(ROOT, 'evidence'), exist_ok=True)
-        with open(os.path.join(ROOT, 'evidence', self.prop + '.json'), 'w') as f:
+        evdir = os.environ.get('VT_EVIDENCE_DIR') or os.path.join(ROOT, 'evidence')      # development runs on scratch trees write elsewhere
+        os.makedirs(evdir, exist_ok=True)
+        with open(os.path.join(evdir, self.prop + '.json'), 'w') as f:
             json.dump(ev, f, indent=1, default=str)
         for l in lines:
             print(l)
